@@ -354,17 +354,29 @@ Fixpoint drive (fuel : nat) (park : bool) (s : st) (k : child) : st :=
            else drive f park (drive1 s k) k
   end.
 
-(* let the actor run until it is idle or dead *)
-Fixpoint consume (fuel : nat) (s : st) : st :=
+Definition FUEL : nat := 4000.
+
+(* post_stop runs after a graceful loop exit only (not after kill / failure) *)
+Definition post_stop_runs (r : reason) : bool :=
+  match r with RDrained | RStop => true | _ => false end.
+
+(* let the actor run until it is idle or dead. [ps]: send frames (threads parked in
+   box_message) that the harness actor's post_stop releases and waits for - post_stop runs
+   after Stopping was published and before the ports are dropped *)
+Fixpoint consume (fuel : nat) (ps : list nat) (s : st) : st :=
   match fuel with
   | O => s
   | S f =>
     match cons s with
     | CRun => let s' := step s LRecv in
-              match cons s' with CRun => s' | _ => consume f s' end
-    | CH _ _ => consume f (step s LH)
-    | CHw _ k _ => if child_done s k then consume f (step s LH) else consume f (drive1 s k)
-    | CExit _ => consume f (step (step (step s LCStopping) LCClose) LFinish)
+              match cons s' with CRun => s' | _ => consume f ps s' end
+    | CH _ _ => consume f ps (step s LH)
+    | CHw _ k _ => if child_done s k then consume f ps (step s LH) else consume f ps (drive1 s k)
+    | CExit r =>
+        let s1 := step s LCStopping in
+        let s2 := if post_stop_runs r
+                  then fold_left (fun x i => drive FUEL false x (KS i)) ps s1 else s1 in
+        consume f ps (step (step s2 LCClose) LFinish)
     | CDead _ => s
     end
   end.
@@ -376,9 +388,10 @@ Inductive act :=
 | ARelease (n : nat)    (* the n-th started thread is released and runs to completion *)
 | AConsume.             (* the actor task runs until quiescent *)
 
-Definition FUEL : nat := 4000.
+Definition resolve (started : list nat) (ps : list nat) : list nat :=
+  flat_map (fun n => match nth_error started n with Some i => [i] | None => [] end) ps.
 
-Definition exec_act (xs : st * list nat) (a : act) : st * list nat :=
+Definition exec_act (ps : list nat) (xs : st * list nat) (a : act) : st * list nat :=
   let '(s, started) := xs in
   match a with
   | ADo c => let '(k, s') := do_call s c in (drive FUEL false s' k, started)
@@ -388,10 +401,13 @@ Definition exec_act (xs : st * list nat) (a : act) : st * list nat :=
                   | Some i => (drive FUEL false s (KS i), started)
                   | None => (s, started)
                   end
-  | AConsume => (consume FUEL s, started)
+  | AConsume => (consume FUEL (resolve started ps) s, started)
   end.
 
-Definition exec (acts : list act) : st := fst (fold_left exec_act acts (init, [])).
+(* ps: start-order indices of the threads released by post_stop *)
+Definition exec_ps (ps : list nat) (acts : list act) : st :=
+  fst (fold_left (exec_act ps) acts (init, [])).
+Definition exec (acts : list act) : st := exec_ps [] acts.
 
 (* the view compared with the implementation: the event log with payload ids in
    place of frame indices, and the final lifecycle status *)
